@@ -14,7 +14,11 @@ emits the glue where the defects live:
                               `dx=` handed to it was measured
   brmsLowCmp / brmsHighCmp    comparison kinds of the band mask
   brmsIntegratorPortable      the integrator is looked up as `trapezoid`, falling back to `trapz`
+  brmsBand*                   the band (flow, fhigh) that each way of calling bandlimited_rms ends up with
+                              (periods / frequencies, one-sided / two-sided), by symbolic execution of the
+                              argument handling
   synthScale / synthRescale   `scale_factor = rms / z_rms`, `z *= scale_factor`
+  ifgPsdDx                    the `dx` that Interferogram.psd() stores on the spectrum
   + structural facts
 
 Every item works on the pinned and on the repaired source shapes and degrades to `untranslatable`
@@ -240,6 +244,73 @@ def _integrator_portable(fn):
     return all(verdicts)
 
 
+def _band_edges(fn, given):
+    """symbolic execution of the argument handling of bandlimited_rms for the call pattern in which exactly the
+    parameters in `given` (among wllow, wlhigh, flow, fhigh) are not None.  -> (flow_expr, fhigh_expr) ast nodes"""
+    env = {k: (ast.Name(id=k) if k in given else None) for k in ('wllow', 'wlhigh', 'flow', 'fhigh')}
+
+    def is_none(e):
+        if isinstance(e, ast.Name) and e.id in env:
+            return env[e.id] is None
+        raise Untranslatable(f'None-test on {ast.unparse(e)[:30]}')
+
+    def test(t):
+        if isinstance(t, ast.Compare) and len(t.ops) == 1 and isinstance(t.comparators[0], ast.Constant) \
+                and t.comparators[0].value is None:
+            if isinstance(t.ops[0], ast.Is):
+                return is_none(t.left)
+            if isinstance(t.ops[0], ast.IsNot):
+                return not is_none(t.left)
+        if isinstance(t, ast.BoolOp):
+            vals = [test(v) for v in t.values]
+            return any(vals) if isinstance(t.op, ast.Or) else all(vals)
+        if isinstance(t, ast.UnaryOp) and isinstance(t.op, ast.Not):
+            return not test(t.operand)
+        raise Untranslatable(f'condition {ast.unparse(t)[:40]}')
+
+    def subst(e):
+        """replace band variables by their current symbolic values"""
+        class S(ast.NodeTransformer):
+            def visit_Name(self, n):
+                if n.id in ('flow', 'fhigh') and env[n.id] is not None:
+                    return env[n.id]
+                return n
+        import copy
+        return S().visit(copy.deepcopy(e))
+
+    def run(stmts):
+        for st in stmts:
+            if isinstance(st, ast.Expr):
+                continue                                   # docstring, warnings.warn(...)
+            if isinstance(st, ast.If):
+                try:
+                    branch = st.body if test(st.test) else st.orelse
+                except Untranslatable:
+                    if any(isinstance(n, ast.Name) and n.id in ('flow', 'fhigh') and isinstance(n.ctx, ast.Store)
+                           for n in ast.walk(st)):
+                        raise
+                    continue                               # an if that does not touch the band edges
+                if run(branch):
+                    return True
+                continue
+            if isinstance(st, ast.Raise):
+                raise Untranslatable('this call pattern raises')
+            if isinstance(st, ast.Assign) and len(st.targets) == 1 and isinstance(st.targets[0], ast.Name):
+                nm = st.targets[0].id
+                if nm in ('flow', 'fhigh'):
+                    env[nm] = subst(st.value)
+                elif nm == 'work':
+                    return True                            # argument handling is over
+                continue
+            if isinstance(st, ast.Return):
+                return True
+        return False
+    run(fn.body)
+    if env['flow'] is None or env['fhigh'] is None:
+        raise Untranslatable('a band edge is still None when the mask is applied')
+    return env['flow'], env['fhigh']
+
+
 # --------------------------------------------------------------------------------------------------
 def generate(repo):
     g = Gen('C13', imports=['PrysmVerif.Num', 'PrysmVerif.Model.C13'])
@@ -399,14 +470,27 @@ def generate(repo):
     g.item('bandlimited_rms.integrator', 'prysm/interferogram.py:bandlimited_rms',
            lambda: get_def(ifm, 'bandlimited_rms'), brms_integrator, 'def brmsIntegratorPortable : Bool := true')
 
-    def brms_periods():
+    def brms_band():
         fn = get_def(ifm, 'bandlimited_rms')
-        fh = [ast.unparse(v).replace(' ', '') for v in find_assigns(fn, 'fhigh')]
-        fl = [ast.unparse(v).replace(' ', '') for v in find_assigns(fn, 'flow')]
-        return '1/wllow' in fh and '1/wlhigh' in fl and '1/wllow' not in fl and '1/wlhigh' not in fh \
-            and set(fh) <= {'1/wllow', 'default_max', 'r.max()'} and set(fl) <= {'1/wlhigh', '0'} \
-            and ast.unparse(find_assign(fn, 'default_max')) == 'r.max()'
-    g.fact('brmsPeriodEdgesAreReciprocals', 'prysm/interferogram.py:bandlimited_rms', brms_periods)
+        pats = [('PeriodLow', ('wllow',)), ('PeriodHigh', ('wlhigh',)), ('PeriodBoth', ('wllow', 'wlhigh')),
+                ('FreqLow', ('flow',)), ('FreqHigh', ('fhigh',)), ('FreqBoth', ('flow', 'fhigh'))]
+        txt = ''
+        for name, given in pats:
+            lo, hi = _band_edges(fn, given)
+            env = {k: k for k in given}
+            env.update({'default_max': 'dmax', 'r.max()': 'dmax'})
+            tr = Tr(env, mode='rat')
+            binders = ' '.join(f'({k} : Rat)' for k in given) + ' (dmax : Rat)'
+            txt += f'def brmsBand{name} {binders} : Rat × Rat := ({tr.expr(lo)}, {tr.expr(hi)})\n'
+        return txt
+    g.item('bandlimited_rms.band', 'prysm/interferogram.py:bandlimited_rms', lambda: get_def(ifm, 'bandlimited_rms'),
+           brms_band,
+           'def brmsBandPeriodLow (wllow : Rat) (dmax : Rat) : Rat × Rat := (0, 1 / wllow)\n'
+           'def brmsBandPeriodHigh (wlhigh : Rat) (dmax : Rat) : Rat × Rat := (1 / wlhigh, dmax)\n'
+           'def brmsBandPeriodBoth (wllow : Rat) (wlhigh : Rat) (dmax : Rat) : Rat × Rat := (1 / wlhigh, 1 / wllow)\n'
+           'def brmsBandFreqLow (flow : Rat) (dmax : Rat) : Rat × Rat := (flow, dmax)\n'
+           'def brmsBandFreqHigh (fhigh : Rat) (dmax : Rat) : Rat × Rat := (0, fhigh)\n'
+           'def brmsBandFreqBoth (flow : Rat) (fhigh : Rat) (dmax : Rat) : Rat × Rat := (flow, fhigh)\n')
 
     # ---- render_synthetic_surface: the RMS rescale
     def synth():
@@ -451,6 +535,17 @@ def generate(repo):
         need = ['ux,uy,psd_=psd(self.data,self.dx)', 'p=RichData(psd_,0,self.wavelength)', 'p.x=ux', 'p.y=uy', 'returnp']
         return all(x in src for x in need) and src.index('p.x=ux') > src.index(need[1])
     g.fact('interferogramPsdDelegates', 'prysm/interferogram.py:Interferogram.psd', ifg_psd)
+
+    def ifg_psd_dx():
+        fn = get_def(ifm, 'Interferogram.psd')
+        rhs = [st.value for st in _stmts(fn) if isinstance(st, ast.Assign) and ast.unparse(st.targets[0]) == 'p.dx']
+        if len(rhs) != 1:
+            raise Untranslatable('p.dx assigned more than once / never')
+        env = {'self.dx': 'dx', 'self.data.shape[1]': 'n', 'self.shape[1]': 'n', 'psd_.shape[1]': 'n',
+               'self.data.shape[0]': 'm', 'self.shape[0]': 'm', 'psd_.shape[0]': 'm'}
+        return f'def ifgPsdDx (dx m n : Rat) : Rat := {Tr(env, mode="rat").expr(rhs[0])}'
+    g.item('Interferogram.psd.dx', 'prysm/interferogram.py:Interferogram.psd', lambda: get_def(ifm, 'Interferogram.psd'),
+           ifg_psd_dx, 'def ifgPsdDx (dx m n : Rat) : Rat := 1 / (n * dx)')
 
     def ifg_brms():
         fn = get_def(ifm, 'Interferogram.bandlimited_rms')
